@@ -2,7 +2,6 @@ package harness
 
 import (
 	"errors"
-	"fmt"
 	"time"
 
 	netty "github.com/go-netty/go-netty"
@@ -50,6 +49,11 @@ func runC20(e *Env) {
 	}
 	swallow := e.P(2) == 0
 	e.Sim.StallOK = e.P(4) == 3
+	closeInActive := e.P(10) == 9 // a handler behind the idle handlers closes the channel while handling the active event
+	slowAt := 0                  // the event handler spends 1.5 idle periods inside the k-th idle event
+	if panicAt == 0 && !closeInActive && e.P(6) == 5 {
+		slowAt = 1 + e.P(2)
+	}
 	nIn, nOut := e.P(5), e.P(5)
 	e.Sim.TimeSensitive()
 
@@ -67,8 +71,14 @@ func runC20(e *Env) {
 	post.Outbound = true
 	post.Swallow = swallow
 	nEvents := 0
+	if closeInActive {
+		post.OnActive = func(ctx netty.ActiveContext) { ctx.Close(errSentinel) }
+	}
 	post.OnEvent = func(ctx netty.EventContext, ev netty.Event) {
 		nEvents++
+		if nEvents == slowAt {
+			simrt.Sleep(SiteDelay, d+d/2)
+		}
 		if nEvents == panicAt {
 			if e.P(2) == 0 {
 				panic("idle event handler panic (string)")
@@ -85,6 +95,9 @@ func runC20(e *Env) {
 		outGaps[i] = drawGap(e, d)
 	}
 	tail := drawGap(e, d) + d/4
+	if slowAt > 0 {
+		tail += 8 * d // enough silence after the slow handler call to see whether events keep coming
+	}
 	if e.P(2) == 1 {
 		// aim the Close at the very instant a timer fires: k idle periods after the last message
 		var tin, tout time.Duration
@@ -105,8 +118,8 @@ func runC20(e *Env) {
 			tail = target - last
 		}
 	}
-	e.Describe("channel=%s idle=%v handlers=%d(0 read,1 write,2 both) inbound-gaps=%v outbound-gaps=%v silence-before-close=%v panic-at-event=%d swallow-exceptions=%v stalls=%v",
-		cc, d, which, inGaps, outGaps, tail, panicAt, swallow, e.Sim.StallOK)
+	e.Describe("channel=%s idle=%v handlers=%d(0 read,1 write,2 both) inbound-gaps=%v outbound-gaps=%v silence-before-close=%v panic-at-event=%d swallow-exceptions=%v stalls=%v close-inside-active=%v slow-event-handler-at=%d",
+		cc, d, which, inGaps, outGaps, tail, panicAt, swallow, e.Sim.StallOK, closeInActive, slowAt)
 	var closeInvAt, closeRetAt time.Duration
 	var closeInv int64
 	closed := false
@@ -219,7 +232,7 @@ func runC20(e *Env) {
 		}
 	}
 	if afterInactive > 2 || (which != 2 && afterInactive > 1) {
-		e.Violate("none-after-inactive", fmt.Sprintf("events=%d", afterInactive), "%d idle events delivered after the inactive event had passed the handler(s)", afterInactive)
+		e.Violate("none-after-inactive", "idle-events-after-inactive", "%d idle events delivered after the inactive event had passed the handler(s)", afterInactive)
 	}
 	if closed && end == simrt.EndHorizon {
 		e.Inconclusive = ""
@@ -254,6 +267,9 @@ func runC20(e *Env) {
 			}
 			silence := closeInvAt - last
 			want := int(silence/d) - 1
+			if slowAt > 0 {
+				want -= 4 // one call of 1.5 periods delays the re-arm; both handlers may be slowed once each
+			}
 			got := 0
 			for _, ev := range evs {
 				_, isR := ev.Msg.(netty.ReadIdleEvent)
